@@ -7,6 +7,7 @@ import Asts.Proofs.WE_Revert
 import Asts.Proofs.WE_NoRestartModel
 import Asts.Proofs.WE_Lossless
 import Asts.Proofs.WE_AfterEdits
+import Asts.Proofs.WE_Names2
 import Asts.Props.C08
 import Asts.Props.C02
 
@@ -353,6 +354,72 @@ theorem monitor_world_is_model_world (h : Hashing) (script : Script) (plan : Lis
     (hed : (histRoundAt h script 1 plan i (k + 1)).edits.isEmpty = false) :
     worldAtEdit i (observeHist (runHistory h script fuel 1 0 i plan)) (k + 1) = wAt h script plan i (k + 1) :=
   worldAtEdit_eq h script plan i fuel k hk hed
+
+/-! ## pod names stay distinct along a run, and the monitor theorems without that hypothesis
+
+A round reads a world only through `settle`; the invariant is about the settled form of every world of the run, which is all
+the proofs need (`Proofs/WE_Names.lean`: the lemmas that used distinct names of a world are re-derived from distinct names of
+its settled form). The earlier `…_partial` theorems are kept. -/
+
+/-- **pod names are pairwise distinct in every (settled) world of the run**, from `wfWorld` and `extraMB` of the initial world
+    alone — members canonically named, one member per ordinal, no non-member under the canonical name of a desired ordinal,
+    distinct names to begin with: creates happen only at vacant desired ordinals, deletes and `settle` only remove, adoption,
+    release and identity updates keep names. (The convergence proof of `Props/C02.lean` carries exactly this through every
+    round: `Stg.pre.podNames` under `stg_rounds`.) -/
+theorem pod_names_distinct_along_run (h : Hashing) (i : SyncIn) (hw : wfWorld h i = true) (hx : extraMB h i = true) :
+    ∀ n, ((settle (roundsN h n i)).pods.map (·.name)).Nodup :=
+  Asts.WE.pod_names_distinct_along_run h i hw hx
+
+/-- edits of the set never touch a pod object: the worlds of a history have the pod objects the rounds left -/
+theorem edits_keep_pods (es : List Edit) (i : SyncIn) : (applyEdits es i).pods = i.pods := applyEdits_pods' es i
+
+/-- **a silent successful round leaves the settled world** — whatever the world's derived field was; distinct names of the
+    settled form only -/
+theorem silent_round_leaves_settled_world (h : Hashing) (W : SyncIn) (hn : ((settle W).pods.map (·.name)).Nodup)
+    (hs : silentOk (round h W []).2 = true) : (round h W []).1 = nrm W ∧ settle (nrm W) = nrm W :=
+  ⟨silent_round_world h W hn hs, settle_nrm W hn⟩
+
+/-- **`C02converges`, the monitor of the `world` engine, is true on the model's run**: world inside `wfWorld` and `extraMB`,
+    budget at least `roundBound + 2`. No other hypothesis. -/
+theorem C02converges_monitor_true_on_model (h : Hashing) (W : SyncIn) (fuel : Nat)
+    (hw : wfWorld h W = true) (hx : extraMB h W = true) (hfuel : roundBound W + 2 ≤ fuel) :
+    C02converges h W (runRounds h fuel 0 W []) = true :=
+  C02converges_run' h W fuel (Asts.WE.pod_names_distinct_along_run h W hw hx) (Asts.C02.C02_converges h W hw hx) hfuel
+
+/-- **C02.afteredits, the monitor, is true on the model — histories with edits**: the last edits of the script are made
+    before round `k + 2`; the world they produce, settled, is inside `wfWorld` and `extraMB`; the budget covers the `k + 1`
+    rounds before, the bound of that world and 2 more. No other hypothesis. -/
+theorem C02_afteredits_monitor_true_on_model (h : Hashing) (script : Script) (fuel : Nat) (i : SyncIn)
+    (plan : List Fault) (k : Nat) (hlast : ∀ e ∈ script, e.1 ≤ k + 2) (hed : (editsAt script (k + 2)).isEmpty = false)
+    (hw : wfWorld h (settle (wAt h script plan i (k + 1))) = true)
+    (hx : extraMB h (settle (wAt h script plan i (k + 1))) = true)
+    (hfuel : k + 1 + roundBound (settle (wAt h script plan i (k + 1))) + 2 ≤ fuel) :
+    C02afterEdits h i (observeHist (runHistory h script fuel 1 0 i plan)) = true :=
+  C02afterEdits_model_edits' h script fuel i plan k hlast hed (extraMB_podNames hx)
+    (Asts.WE.pod_names_distinct_along_run h _ hw hx) (Asts.C02.C02_converges h _ hw hx) hfuel
+
+/-- … and histories without edits (empty script, empty fault plan) -/
+theorem C02_afteredits_monitor_true_on_model_noedits (h : Hashing) (fuel : Nat) (i : SyncIn)
+    (hw : wfWorld h i = true) (hx : extraMB h i = true) (hfuel : roundBound i + 2 ≤ fuel) :
+    C02afterEdits h i (observeHist (runHistory h [] fuel 1 0 i [])) = true :=
+  C02afterEdits_model_noedits' h fuel i (Asts.WE.pod_names_distinct_along_run h i hw hx) (Asts.C02.C02_converges h i hw hx) hfuel
+
+/-- **C11.lossless, the monitor, is true on the model** (empty fault plan): initial world inside `wfWorld` and `extraMB`;
+    when the script is one pause interval `(a, b)`: `2 ≤ a` (the case format) and a budget that reaches round `b`. No other
+    hypothesis. -/
+theorem C11_lossless_monitor_true_on_model (h : Hashing) (i : SyncIn) (script : Script) (fuel : Nat)
+    (hw : wfWorld h i = true) (hx : extraMB h i = true)
+    (hpi : ∀ a b, pauseInterval script = some (a, b) → 2 ≤ a ∧ b ≤ fuel) :
+    C11lossless i script (observeHist (runHistory h script fuel 1 0 i [])) (runRounds h fuel 0 i []) = true :=
+  C11lossless_model_any' h [] i script fuel (wfWorld_not_paused hw) (plainWorld_names h i hw hx) hpi
+
+/-- the same with a fault plan in round 1 (where `wfWorld` / `extraMB` say nothing about the worlds a faulted round leaves):
+    `_partial` — distinct pod names in the settled worlds of the never-paused run are assumed -/
+theorem C11_lossless_monitor_true_on_model_faulted_partial (h : Hashing) (plan : List Fault) (i : SyncIn) (script : Script)
+    (fuel : Nat) (hnp : i.paused = false) (hnod : ∀ n, ((settle (plainWorld h i plan n)).pods.map (·.name)).Nodup)
+    (hpi : ∀ a b, pauseInterval script = some (a, b) → 2 ≤ a ∧ b ≤ fuel) :
+    C11lossless i script (observeHist (runHistory h script fuel 1 0 i plan)) (runRounds h fuel 0 i plan) = true :=
+  C11lossless_model_any' h plan i script fuel hnp hnod hpi
 
 /-! ## non-vacuity -/
 
